@@ -3,9 +3,9 @@
    loops on fuel): no panic for ARBITRARY bytes and chunkings, and progress
    (a successful call strictly consumes input, so the number of successful
    calls is bounded by the input length and the fuel provably suffices).
-   Readers covered here: rtpdump, h264reader, h265reader (media1 models).
-   The IVF and Ogg readers and the OpusHead/OpusTags parsers are added from
-   the media2 models (see props/C37.json planned_not_proved until then). *)
+   Readers covered: rtpdump, h264reader, h265reader (media1 models) and, in
+   the second half of the file, ivfreader, oggreader (with and without
+   checksum), NewWith, ParseOpusHead and ParseOpusTags (media2 models). *)
 From Coq Require Import List NArith String.
 Import ListNotations.
 From Verif Require Import Common.Base Common.Media1Util Model.RtpDump Model.AnnexB
@@ -55,3 +55,58 @@ Theorem c37_next_nal_no_panic : forall sk s,
   fst (next_nal sk s) <> Panic /\ fst (next_nal sk s) <> Err "out-of-fuel"%string.
 Proof. exact h26x_next_nal_no_panic. Qed.
 Print Assumptions c37_next_nal_no_panic.
+
+(* ---- readers modelled by the media2 family: IVF, Ogg, OpusHead, OpusTags ---- *)
+From Verif Require Model.Ivf Model.Ogg Proofs.C37Media2.
+
+Theorem c37_ivfreader_no_panic : forall bytes : list N,
+  Ivf.read_file bytes <> Panic /\
+  forall h frs e, Ivf.read_file bytes = Ok (h, frs, e) ->
+                  e <> "out-of-fuel"%string /\ e <> "panic"%string.
+Proof. exact C37Media2.ivfreader_no_panic. Qed.
+Print Assumptions c37_ivfreader_no_panic.
+
+Theorem c37_ivfreader_header_no_panic : forall bytes, Ivf.parse_header bytes <> Panic.
+Proof. exact C37Media2.ivfreader_header_no_panic. Qed.
+Print Assumptions c37_ivfreader_header_no_panic.
+
+Theorem c37_ivfreader_frame_no_panic : forall den num bytes,
+  num <> 0 -> Ivf.parse_next_frame den num bytes <> Panic.
+Proof. exact C37Media2.ivfreader_frame_no_panic. Qed.
+Print Assumptions c37_ivfreader_frame_no_panic.
+
+Theorem c37_ivfreader_frame_progress : forall den num bytes f rest,
+  Ivf.parse_next_frame den num bytes = Ok (f, rest) ->
+  (List.length rest + 12 + List.length (Ivf.r_payload f) = List.length bytes)%nat.
+Proof. exact C37Media2.ivfreader_frame_progress. Qed.
+Print Assumptions c37_ivfreader_frame_progress.
+
+Theorem c37_oggreader_page_no_panic : forall do_checksum bytes,
+  Ogg.parse_next_page do_checksum bytes <> Panic.
+Proof. exact C37Media2.oggreader_page_no_panic. Qed.
+Print Assumptions c37_oggreader_page_no_panic.
+
+Theorem c37_oggreader_page_progress : forall do_checksum bytes pg rest,
+  Ogg.parse_next_page do_checksum bytes = Ok (pg, rest) ->
+  (List.length rest + 27 + List.length (Ogg.rp_segs pg) + List.length (Ogg.rp_payload pg) = List.length bytes)%nat.
+Proof. exact C37Media2.oggreader_page_progress. Qed.
+Print Assumptions c37_oggreader_page_progress.
+
+Theorem c37_oggreader_pages_terminate : forall fuel dc bytes,
+  (List.length bytes < fuel)%nat ->
+  snd (Ogg.read_pages fuel dc bytes) <> "out-of-fuel"%string /\
+  snd (Ogg.read_pages fuel dc bytes) <> "panic"%string.
+Proof. exact C37Media2.oggreader_pages_terminate. Qed.
+Print Assumptions c37_oggreader_pages_terminate.
+
+Theorem c37_oggreader_new_no_panic : forall bytes, Ogg.reader_new bytes <> Panic.
+Proof. exact C37Media2.oggreader_new_no_panic. Qed.
+Print Assumptions c37_oggreader_new_no_panic.
+
+Theorem c37_opus_head_no_panic : forall payload, Ogg.parse_opus_head payload <> Panic.
+Proof. exact C37Media2.oggreader_opus_head_no_panic. Qed.
+Print Assumptions c37_opus_head_no_panic.
+
+Theorem c37_opus_tags_no_panic : forall payload, Ogg.parse_opus_tags payload <> Panic.
+Proof. exact C37Media2.oggreader_opus_tags_no_panic. Qed.
+Print Assumptions c37_opus_tags_no_panic.
